@@ -4,7 +4,7 @@
 From Coq Require Import List Bool ZArith Lia Arith.
 From Coq.Strings Require Import Byte.
 Import ListNotations.
-From Zap Require Import Base.Wire C05.Cores C05.CoreProofs C05.Model.
+From Zap Require Import Base.Wire C05.Cores C05.CoreProofs C05.Sampling C05.SamplingProofs C05.Model.
 Open Scope Z_scope.
 
 (* ---------------- induction over S-expressions ---------------- *)
@@ -43,13 +43,16 @@ Proof.
   { intros c ->. apply (Forall_inv IH). }
   assert (H2 : forall c x, args = [c; x] -> build_with ok1 w c = build_with ok2 w c).
   { intros c x ->. apply (Forall_inv IH). }
+  assert (H3 : forall c x y, args = [c; x; y] -> build_with ok1 w c = build_with ok2 w c).
+  { intros c x y ->. apply (Forall_inv IH). }
   cbn [build_with].
   destruct tag as [|p|p]; [reflexivity| |reflexivity].
-  destruct p as [[[|p|]|[|p|]|]|[[|p|]|[|p|]|]|]; try reflexivity.
+  destruct p as [[[|p|]|[|p|]|]|[[|p|]|[|[|p|]|]|]|]; try reflexivity.
   - (* 7 *) destruct args as [|c [|? ?]]; try reflexivity. rewrite (H1 c eq_refl). reflexivity.
   - (* 5 *) destruct args as [|c [|? ?]]; try reflexivity. rewrite (H1 c eq_refl). reflexivity.
   - (* 3 *) destruct args as [|c [|h [|? ?]]]; try reflexivity. rewrite (H2 c h eq_refl). reflexivity.
   - (* 6 *) destruct args as [|c [|? ?]]; try reflexivity. rewrite (H1 c eq_refl). reflexivity.
+  - (* 8 *) destruct args as [|c [|fi [|th [|? ?]]]]; try reflexivity. rewrite (H3 c fi th eq_refl). reflexivity.
   - (* 4 *) destruct args as [|c [|en [|? ?]]]; try reflexivity. rewrite (H2 c en eq_refl).
     destruct (build_with ok2 w c) as [c' n]. rewrite Hok. reflexivity.
   - (* 2 *) rewrite Hmap. reflexivity.
@@ -98,16 +101,53 @@ Proof.
   specialize (H a Hin). apply andb_true_iff in H. rewrite !Z.leb_le in H. exact H.
 Qed.
 
-Lemma spec_model_op obs w c o : spec_op obs w c o (model_op obs w c o) = true.
+(* the decisions the oracle reads back from the model's own report *)
+Lemma sx_bool_of_bool b : sx_bool (of_bool b) = b.
+Proof. destruct b; reflexivity. Qed.
+Lemma reported_drop_enc dec ks j :
+  reported_drop (map (enc_report dec) ks) j = existsb (Nat.eqb j) ks && dec j.
+Proof.
+  unfold reported_drop. induction ks as [|k r IH]; [reflexivity|].
+  cbn [map existsb]. rewrite IH. unfold enc_report, sx_nth. cbn [sx_l nth].
+  rewrite sx_n_of_nat, sx_bool_of_bool, (Nat.eqb_sym j k).
+  destruct (Nat.eqb k j) eqn:E.
+  - apply Nat.eqb_eq in E. subst k. destruct (dec j), (existsb (Nat.eqb j) r); reflexivity.
+  - reflexivity.
+Qed.
+Lemma existsb_eqb_In j ks : existsb (Nat.eqb j) ks = true <-> In j ks.
+Proof.
+  rewrite existsb_exists. split.
+  - intros [x [Hx E]]. apply Nat.eqb_eq in E. subst x. exact Hx.
+  - intros H. exists j. split; [exact H|apply Nat.eqb_refl].
+Qed.
+
+Lemma spec_model_op obs ps st w c o : spec_op obs w c o (model_op obs ps st w c o) = true.
 Proof.
   destruct o as [a v|f l|l| |n|]; cbn [spec_op model_op]; try reflexivity.
   - unfold sx_nth. cbn [sx_l nth].
+    set (dec := counter_dec st ps l (msg_class f)).
+    set (dec' := reported_drop (map (enc_report dec) (call_consulted dec w c f l))).
+    (* the call asked only the samplers it reports, and those only at a sampled level *)
+    assert (Hag : forall j, In j (call_consulted dec w c f l) -> dec j = dec' j).
+    { intros j Hj. unfold dec'. rewrite reported_drop_enc.
+      apply existsb_eqb_In in Hj. rewrite Hj. reflexivity. }
+    assert (Heff : forall j, effective dec' l j = dec' j).
+    { intros j. unfold effective. destruct (dec' j) eqn:D; [|apply andb_false_r].
+      unfold dec' in D. rewrite reported_drop_enc in D. apply andb_true_iff in D. destruct D as [D _].
+      apply existsb_eqb_In in D. rewrite (call_consulted_valid dec w c f l j D). reflexivity. }
+    assert (Hws : call_writers_s dec w c f l = call_writers_s dec' w c f l)
+      by (apply call_writers_s_agree; exact Hag).
+    destruct (sampler_front_ends_thm dec' w c f l) as [HL HH].
+    rewrite (delivered_s_ext _ _ w c 0%nat l Heff) in HL. rewrite (hooks_due_s_ext _ _ w c 0%nat l Heff) in HH.
+    rewrite <- Hws in HL, HH.
     rewrite dec_enc_events, leaves_of_visible, hooks_of_visible, map_sx_n_of_nat, sx_n_of_nat.
-    rewrite logger_delivery_thm, logger_hooks_thm, !nat_list_eqb_refl. cbn [andb].
-    unfold payload_evals. rewrite logger_delivery_thm.
+    rewrite HL, HH, !nat_list_eqb_refl. cbn [andb].
+    unfold payload_evals_s. rewrite HL.
     destruct (accepts w c l) eqn:A.
     + rewrite (reaches_check_accepted w c f l A), andb_true_r. apply Nat.eqb_eq. lia.
-    + assert (delivered w c l = []) as -> by (apply accepts_false; exact A).
+    + assert (delivered_s dec' w c 0 l = []) as ->.
+      { apply incl_l_nil. assert (delivered w c l = []) as <- by (apply accepts_false; exact A).
+        apply sampler_local_thm. }
       cbn [filter length]. destruct (l <? DPanicL) eqn:E.
       * apply Z.ltb_lt in E.
         assert (formats_message f && reaches_check w c f l = false) as ->.
@@ -123,9 +163,9 @@ Proof.
   - unfold grpc_v. rewrite enabled_accepts. unfold of_bool, sx_bool, sx_z. destruct (accepts w c (grpc_level n)); reflexivity.
 Qed.
 
-Lemma spec_model_ops obs ops : forall w c, spec_ops obs w c ops (model_ops obs w c ops) = true.
+Lemma spec_model_ops obs ps ops : forall st w c, spec_ops obs w c ops (model_ops obs ps st w c ops) = true.
 Proof.
-  induction ops as [|o r IH]; intros w c; [reflexivity|]. cbn [spec_ops model_ops].
+  induction ops as [|o r IH]; intros st w c; [reflexivity|]. cbn [spec_ops model_ops].
   rewrite spec_model_op. cbn [andb]. destruct (next_state w c o) as [w' c']. apply IH.
 Qed.
 
